@@ -7,7 +7,7 @@ import structsem
 
 RULE = ("pairs (P1, P2) over disjoint name spaces: P1 from a pool that exits constructs early (return inside loop inside "
         "if, break inside nested ifs, else-less true ifs, finished loops, containers dropped after crossing the collection "
-        "threshold) plus random programs; P2 from a pool whose behaviour depends on interpreter bookkeeping (else chains, "
+        "threshold, two collections with a survivor that dies in between) plus random programs; P2 from a pool whose behaviour depends on interpreter bookkeeping (else chains, "
         "break/continue, calls inside loops, allocation-heavy code, a located runtime error) plus random programs. "
         "Three runs per pair: P1, P2, P1;P2. Metamorphic oracle on the implementation: out(P1;P2) = out(P1) ++ out(P2), "
         "same end status, error line shifted by the line count of P1; each run is also compared with the Lean model. "
@@ -80,6 +80,39 @@ def p2_temporaries(m, shape):
     return [f, ("decl", "প২ফল", e), ("print", G.var("প২ফল")), ("print", G.s("প২ শেষ"))]
 
 
+def p1_free_list_residue(rows, keep, size):
+    """P1 that goes through two collections: `rows` one-element lists, all but row `keep` dropped before the first
+    collection, row `keep` dropped before the second; a long buffer copied twice supplies the allocation volume.  It ends
+    normally with every container dropped: what it leaves behind is the arena and the order of its free list"""
+    names = [f"প১সারি{i}" for i in range(rows)]
+    prog = [("decl", n, G.lst(G.num(i + 1))) for i, n in enumerate(names)]
+    prog += [("decl", "প১বাফার", G.lst()), ("decl", "প১গ", G.num(0)),
+             ("loop", [("if", [(G.bin_(">=", G.var("প১গ"), G.num(size)), [("break",)])], None),
+                       ("expr", G.call("_লিস্ট-পুশ", G.var("প১বাফার"), G.var("প১গ"))),
+                       ("assign", "প১গ", [], G.bin_("+", G.var("প১গ"), G.num(1)))])]
+    prog += [("assign", n, [], G.num(0)) for i, n in enumerate(names) if i != keep]
+    prog += [("decl", "প১অনুলিপি", G.bin_("+", G.var("প১বাফার"), G.var("প১বাফার"))), ("print", G.call("_লিস্ট-লেন", G.var("প১অনুলিপি"))),
+             ("print", G.var(names[keep])), ("assign", names[keep], [], G.num(0)),
+             ("assign", "প১অনুলিপি", [], G.bin_("+", G.var("প১বাফার"), G.var("প১বাফার"))), ("print", G.call("_লিস্ট-লেন", G.var("প১অনুলিপি"))),
+             ("assign", "প১অনুলিপি", [], G.num(0)), ("assign", "প১বাফার", [], G.num(0))]
+    return prog
+
+
+def p2_alias_probe(k, records=False):
+    """P2 that keeps `k` fresh containers alive at once, changes each one differently and prints them all: two fresh
+    containers sharing one arena slot show up as equal contents"""
+    names = [f"প২তাজা{i}" for i in range(k)]
+    mk = (lambda i: G.rec((G.s("ক"), G.num(i)))) if records else (lambda i: G.lst(G.num(i)))
+    prog = [("decl", n, mk(i)) for i, n in enumerate(names)]
+    for i, n in enumerate(names):
+        if records:
+            prog.append(("assign", n, [G.s("খ")], G.num(100 + i)))
+        else:
+            prog.append(("expr", G.call("_লিস্ট-পুশ", G.var(n), G.num(100 + i))))
+    prog += [("print", G.var(n)) for n in names]
+    return prog
+
+
 def compose_oracle(case, impl, model):
     a1, a2, a12 = (C.RunAns(x) for x in impl)
     if a1.kind != "ok":
@@ -117,6 +150,12 @@ def cases(rng, tier, stats):
         for m in (20, 40):
             for shape in range(3):
                 pairs.append((p1_counter_residue(units), p2_temporaries(m, shape)))
+    # residue in the free list: P1 goes through two collections with a survivor that dies in between
+    for rows in ((5, 7, 9) if tier != "thorough" else range(3, 12)):
+        for keep in range(rows):
+            for size in ((600,) if tier != "thorough" else (520, 600, 680)):
+                pairs.append((p1_free_list_residue(rows, keep, size), p2_alias_probe(rows + 1)))
+    pairs.append((p1_free_list_residue(7, 3, 600), p2_alias_probe(6, records=True)))
     skipped = 0
     for a, b in pairs:
         s1, s2 = G.source(a, "lines"), G.source(b, "lines")
